@@ -219,6 +219,61 @@ pub fn run_total(args: &[String]) {
                 run_one(&w(format!("x = {}1{}", "Some(".repeat(d), ")".repeat(d))), "nest-some", &uri, &mut t, &mut out);
             }
         }
+        "literals" => {
+            // odd literal / identifier tokens in every simple expression, pattern, type and declaration position
+            let toks: Vec<String> = [
+                "1e999", "1e-999", "-1e999", "1e308", "1.7976931348623157e308", "4.9e-324", "99999999999999999999",
+                "9223372036854775808", "-9223372036854775808", "-9223372036854775809", "0x", "0xff", "0b2", "0o7", "1__0",
+                "1_", "_1", "1.", ".5", "1e", "1e+", "1.5.2", "00", "01", "0.0000000000000000000000000000000000000001",
+                "1_000_000_000_000_000_000_000", "\"\\u{110000}\"", "\"\\x\"", "\"\\\"", "b\"\\xZZ\"", "b\"é\"", "f\"{\"",
+                "f\"{}\"", "f\"{a!r}\"", "f\"{a:>10}\"", "f\"{a:.2f}\"", "f\"{{\"", "f\"}\"", "f\"{f\\\"x\\\"}\"", "f\"{'a'}\"",
+                "f\"{a[\\\"k\\\"]}\"", "变量", "é", "x😀", "𝄞", "__", "_", "self", "Self", "None", "True", "true", "type", "match",
+                "case", "async", "await", "yield", "pub", "mut", "let", "in", "is", "not", "and", "r\"raw\"", "\"\"\"doc\"\"\"",
+                "'''x'''", "\"a\" \"b\"", "1if", "1 if 2 else 3", "lambda: 1", "*a", "**a", "a.0.0", "a.1e5", "a?.b", "a??",
+                "..", "..=", "0..", "..5", "a..b..c", "->", "=>", "@", "$", "`", "\\", ";", "1;2",
+            ]
+            .into_iter()
+            .map(|s| s.to_string())
+            .collect();
+            let long_ident = "a".repeat(5000);
+            let ctxs: Vec<&str> = vec![
+                "def f() -> None:\n    x = {T}\n",
+                "const K = {T}\n",
+                "const K: int = {T}\n",
+                "def f() -> None:\n    print({T})\n",
+                "def f() -> None:\n    x = xs[{T}]\n",
+                "def f() -> None:\n    x = xs[{T}:{T}:{T}]\n",
+                "def f() -> None:\n    match x:\n        case {T}:\n            pass\n        case _:\n            pass\n",
+                "def f(a: int = {T}) -> None:\n    pass\n",
+                "def f(a: {T}) -> {T}:\n    pass\n",
+                "def {T}() -> None:\n    pass\n",
+                "model {T}:\n    {T}: int\n",
+                "enum E:\n    {T}\n",
+                "import {T}\n",
+                "from {T} import {T}\n",
+                "@{T}\ndef f() -> None:\n    pass\n",
+                "def f() -> None:\n    x = f\"{{T}}\"\n",
+                "def f() -> None:\n    x = {T} + {T} * -{T}\n",
+                "def f() -> None:\n    x = {T}.{T}\n",
+                "def f() -> None:\n    {T} = 1\n",
+                "def f() -> None:\n    {T} += 1\n",
+                "def f() -> None:\n    for {T} in {T}:\n        pass\n",
+                "type N = newtype {T}\n",
+                "def f() -> None:\n    x = [{T} for {T} in {T} if {T}]\n",
+                "def f() -> None:\n    x = ({T}) => {T}\n",
+                "def f() -> None:\n    x = {{T}: {T}}\n",
+                "def f() -> None:\n    return {T}\n",
+            ];
+            let mut k: u64 = 0;
+            for tk in toks.iter().chain(std::iter::once(&long_ident)) {
+                for c in &ctxs {
+                    k += 1;
+                    if shard.mine(k) {
+                        run_one(&c.replace("{T}", tk), "literals", &uri, &mut t, &mut out);
+                    }
+                }
+            }
+        }
         "stdin" => {
             // one JSON string per line
             let stdin = std::io::stdin();
